@@ -2,6 +2,7 @@
 From Coq Require Import List NArith ZArith Permutation.
 Import ListNotations.
 Require Import ITree.Model.Common ITree.Model.RBTree ITree.Model.Pool ITree.Model.MapModel ITree.Model.KeyModel.
+Require ITree.Proofs.RBInv ITree.Model.ArenaModel ITree.Model.ArenaDelete ITree.Proofs.ArenaProofs ITree.Proofs.ArenaDeleteProofs.
 Require Import ITree.Spec.MapSpec ITree.Proofs.PoolProofs ITree.Proofs.MapProofs ITree.Proofs.MapTheorems
   ITree.Proofs.KeyListProofs ITree.Proofs.KeyProofs ITree.Proofs.KeyRefine ITree.Proofs.KeyTheorems ITree.Proofs.PoolBound.
 
@@ -54,3 +55,14 @@ Proof. exact PoolBound.pool_get_bnd. Qed.
 Theorem C11_bound_put : forall (c0 p: N) (used: list N) (pl: pool) (f: N),
   pool_wf (f :: used) pl -> PoolBound.Bnd c0 p pl -> PoolBound.Bnd c0 p (pool_put pl f).
 Proof. exact PoolBound.pool_put_bnd. Qed.
+
+(* on the parent-pointer arena: a removal writes no slot outside the tree it removes from and the
+   sentinel (in particular none that is on the free list or belongs to nobody), and returns exactly
+   the slot the tree-level model frees *)
+Theorem C11_arena_delete_frame : forall (s: ArenaModel.astate ment) (t: tree ment) (x: N) (fuel: nat)
+  (s': ArenaModel.astate ment) (f: N),
+  ArenaProofs.Rep s ArenaModel.EMPTY (ArenaModel.aroot s) t -> NoDup (slots ment t) -> ~ In 0%N (slots ment t) ->
+  RBInv.rbi ment t -> In x (slots ment t) -> (height ment t <= fuel)%nat ->
+  ArenaDelete.arena_delete fuel s x = Ret (s', f) ->
+  forall j, ~ In j (slots ment t) -> j <> 0%N -> ArenaModel.nodes s' j = ArenaModel.nodes s j.
+Proof. exact (@ArenaDeleteProofs.arena_delete_frame ment). Qed.
